@@ -519,4 +519,103 @@ theorem cstrstr_empty' (h : List Nat) : cstrstr h [] = if cstr h = [] then -1 el
   · have : 0 < (cstr h).length := List.length_pos_iff.mpr hc
     simp [hc, this]
 
+/-! ### CstrTokenR -/
+
+def neB (c x : Nat) : Bool := x != c
+def notInB (sep : List Nat) (x : Nat) : Bool := !(sep.contains x)
+
+def firstOf (s : List Nat) (c : Nat) : Nat := (s.takeWhile (neB c)).length
+
+theorem takeWhile_length_le (s : List Nat) (p : Nat → Bool) : (s.takeWhile p).length ≤ s.length := by
+  induction s with
+  | nil => simp
+  | cons x xs ih => simp only [List.takeWhile_cons]; split <;> simp <;> omega
+
+theorem indexByte_eq (s : List Nat) (c : Nat) :
+    indexByte s c = if firstOf s c < s.length then some (firstOf s c) else none := by
+  induction s with
+  | nil => simp [indexByte, firstOf]
+  | cons x xs ih =>
+    by_cases h : x = c
+    · subst h
+      have hn : neB x x = false := by simp [neB]
+      simp [indexByte, firstOf, List.takeWhile_cons, hn]
+    · have hn : neB c x = true := by simp [neB, h]
+      have e : firstOf (x :: xs) c = firstOf xs c + 1 := by simp [firstOf, List.takeWhile_cons, hn]
+      simp only [indexByte, h, if_false, ih, e, List.length_cons]
+      by_cases hlt : firstOf xs c < xs.length
+      · simp [hlt]
+      · simp [hlt]
+
+theorem takeWhile_and_length (s : List Nat) (p q : Nat → Bool) :
+    (s.takeWhile (fun x => p x && q x)).length = min (s.takeWhile p).length (s.takeWhile q).length := by
+  induction s with
+  | nil => simp
+  | cons x xs ih =>
+    simp only [List.takeWhile_cons]
+    cases hp : p x <;> cases hq : q x <;> simp [ih]
+
+theorem takeWhile_true (s : List Nat) : s.takeWhile (fun _ => true) = s := by
+  induction s with
+  | nil => rfl
+  | cons x xs ih => simp [List.takeWhile_cons, ih]
+
+theorem notIn_cons_length (s : List Nat) (c : Nat) (rest : List Nat) :
+    (s.takeWhile (notInB (c :: rest))).length = min (firstOf s c) (s.takeWhile (notInB rest)).length := by
+  have : notInB (c :: rest) = (fun x => neB c x && notInB rest x) := by
+    funext x
+    simp only [notInB, neB, List.contains_cons, Bool.not_or]
+    rfl
+  rw [this, takeWhile_and_length]; rfl
+
+theorem tokenMin_eq (s sep : List Nat) (m : Nat) (hm : m ≤ s.length) :
+    tokenMin s sep m = min m (s.takeWhile (notInB sep)).length := by
+  induction sep generalizing m with
+  | nil =>
+    have : s.takeWhile (notInB []) = s := by
+      have : notInB [] = fun _ => true := by funext x; simp [notInB]
+      rw [this]; exact takeWhile_true s
+    simp only [tokenMin, this]; omega
+  | cons c rest ih =>
+    have hle : firstOf s c ≤ s.length := takeWhile_length_le _ _
+    have hL : (s.takeWhile (notInB rest)).length ≤ s.length := takeWhile_length_le _ _
+    rw [notIn_cons_length, tokenMin, indexByte_eq]
+    by_cases hlt : firstOf s c < s.length
+    · simp only [hlt, if_true]
+      rw [ih _ (by split <;> omega)]
+      split <;> omega
+    · simp only [hlt, if_false]
+      rw [ih m hm]; omega
+
+/-- where `CstrTokenR` cuts: at the first NUL or the first separator byte, whichever comes first (else at the end). -/
+def stopLen (s sep : List Nat) : Nat := min (cstr s).length (s.takeWhile (notInB sep)).length
+
+theorem cstrTokenR_eq' (s sep : List Nat) :
+    cstrTokenR s sep = .ok (s.take (stopLen s sep), s.drop (stopLen s sep + 1)) := by
+  have hmin : tokenMin s sep (cstrlen s) = stopLen s sep := by
+    rw [tokenMin_eq s sep _ (by rw [cstrlen_eq']; exact cstr_length_le s), cstrlen_eq']; rfl
+  have hle : stopLen s sep ≤ s.length := by
+    have := cstr_length_le s
+    unfold stopLen; omega
+  have h1 : tokenFirst s (stopLen s sep) = .ok (s.take (stopLen s sep)) := by
+    unfold tokenFirst
+    by_cases h : stopLen s sep = 0
+    · simp [h, pure, Except.pure]
+    · simp [h, slice, hle]
+  have h2 : tokenRest s (stopLen s sep) = .ok (s.drop (stopLen s sep + 1)) := by
+    unfold tokenRest
+    by_cases h2 : Int.ofNat (stopLen s sep) ≥ Int.ofNat s.length - 1
+    · have : s.drop (stopLen s sep + 1) = [] := List.drop_eq_nil_of_le (by
+        simp only [Int.ofNat_eq_natCast] at h2; omega)
+      rw [if_pos h2, this]; rfl
+    · have hlt : stopLen s sep + 1 ≤ s.length := by
+        simp only [Int.ofNat_eq_natCast] at h2; omega
+      rw [if_neg h2]
+      unfold slice
+      rw [if_pos ⟨hlt, Nat.le_refl _⟩]
+      simp
+  unfold cstrTokenR
+  simp only [hmin, h1, h2, bind, Except.bind]
+  rfl
+
 end PttVerif.C18
